@@ -833,8 +833,21 @@ def rule_p5(ctx):
     # (ii) mux_uncached_panic muxes every field of t with the same field of f
     mb = ctx.body(MUX_UNCACHED)
     muxed = {}
+
+    def elementwise_mux(fid):
+        """A helper (builder, condition, a, b) all of whose push_mux calls select between an element of a and an element of b by
+        the condition it was given: calling it on t.F and f.F is the merge of the field F."""
+        if not fid or not ctx.has_fn(fid) or fid in (PUSH_MUX, MUX_UNCACHED):
+            return False
+        hb = ctx.body(fid)
+        if hb.arg_count != 4:
+            return False
+        calls = [t for _, t in hb.calls() if mir.callee(t) == PUSH_MUX]
+        return bool(calls) and all({r for (r, p) in hb.trace_operand(t["args"][1])} == {("arg", 2)} and
+                                   {r for (r, p) in hb.trace_operand(t["args"][2])} == {("arg", 3)} and
+                                   {r for (r, p) in hb.trace_operand(t["args"][3])} == {("arg", 4)} for t in calls)
     for b, t in mb.calls():
-        if mir.callee(t) != PUSH_MUX:
+        if mir.callee(t) != PUSH_MUX and not (len(t["args"]) == 4 and elementwise_mux(mir.callee(t))):
             continue
         fa = {p[0] for (r, p) in mb.trace_operand(t["args"][2]) if r == ("arg", 3) and p}
         fb = {p[0] for (r, p) in mb.trace_operand(t["args"][3]) if r == ("arg", 4) and p}
@@ -855,6 +868,11 @@ def rule_p5(ctx):
             for st in blk["stmts"]:
                 if st["k"] == "assign" and st["rv"]["k"] == "use" and st["rv"]["op"].get("place", {}).get("l") == dest and st["place"]["p"]:
                     if mir.proj_names(st["place"]["p"])[0] == f:
+                        stored = True
+                # or the record is built in one piece: PanicResult { f: <merged>, .. } (operands in declaration order)
+                if st["k"] == "assign" and st["rv"]["k"] == "aggregate" and (st["rv"].get("adt") or "").endswith("PanicResult") and len(st["rv"]["ops"]) == len(fields):
+                    o = st["rv"]["ops"][fields.index(f)]
+                    if o["k"] in ("copy", "move") and any(r[:2] == ("call", b) for (r, p) in mb.trace_operand(o, through={})):
                         stored = True
         via = {m[3] for m in good}
         for lp in mb.loops():
@@ -917,6 +935,11 @@ def rule_p5(ctx):
             names = mir.proj_names(st["place"]["p"])
             if len(names) >= 3 and names[:2] == ("panic_gates", "result"):
                 renum.add(names[2])
+            elif st["place"]["p"] and st["place"]["l"] != 1:
+                # the write goes through a reborrow: `let panic = &mut self.panic_gates.result; panic.has_panicked = ..`
+                for (r, p) in rb.trace(st["place"], through=protocol.DEREF_ONLY):
+                    if r == SELF1 and tuple(p[:2]) == ("panic_gates", "result") and len(p) > 2:
+                        renum.add(p[2])
     # writes through iter_mut(): `*w = shift(*w)` where w comes from an iterator over the field
     for b, t in rb.calls():
         if mir.last_seg(mir.callee(t) or "") == "iter_mut":
